@@ -63,7 +63,7 @@ _MOD = None
 
 
 def _worker(args):
-    modname, seeds, tier, wall_cap = args
+    modname, seeds, tier, wall_cap, deadline = args
     faulthandler.dump_traceback_later(wall_cap, exit=True)
     try:
         mod = _load(modname)
@@ -81,6 +81,9 @@ def _worker(args):
             "errors": [],
         }
         for seed in seeds:
+            if time.time() > deadline and agg["evals"] > 0:
+                agg["cut_short"] = True
+                break
             try:
                 plan, res = run_seed(mod, seed, tier)
             except Exception:
@@ -320,7 +323,7 @@ def drive(modname: str, tier: str, base_seed: int, jobs: int, runs_override: int
             c = next(it, None)
             if c is None:
                 return False
-            pending.add(ex.submit(_worker, (modname, c, tier, worker_cap)))
+            pending.add(ex.submit(_worker, (modname, c, tier, worker_cap, t0 + wall)))
             return True
 
         for _ in range(jobs * 2):
@@ -346,7 +349,9 @@ def drive(modname: str, tier: str, base_seed: int, jobs: int, runs_override: int
                 if len(agg["samples"]) < 4:
                     agg["samples"].extend(a["samples"])
                 errors.extend(a["errors"])
-                if time.time() - t0 < wall and len(errors) < 5:
+                if a.get("cut_short"):
+                    stopped_early = True
+                if time.time() - t0 < wall and len(errors) < 5 and len(agg["violations"]) < 400:
                     submit_next()
                 else:
                     stopped_early = stopped_early or next(it, None) is not None
